@@ -62,6 +62,7 @@ func responsePathEntries(p *Prog) []*ssa.Function {
 		}
 	}
 	for _, n := range []string{
+		"agent.forwardRequest", "agent.processOneRequest",
 		"agent/utils.postResponseWithRetries",
 		"agent/utils.(*bufferedReadSeeker).Read", "agent/utils.(attemptReader).Read", "agent/utils.(*streamedBody).Read",
 		"agent/websockets.(*shimmedBody).Read",
@@ -117,7 +118,7 @@ func staticClosure(p *Prog, fns []*ssa.Function) []*ssa.Function {
 func runC05(c *Ctx) {
 	p := c.Progs["mod"]
 	c.Rule("C05.B", "no accumulate-then-forward call on the response path", 30)
-	c.Rule("C05.W", "write-through writers, single-read readers", 8)
+	c.Rule("C05.W", "write-through writers, single-read readers", 9)
 	c.Rule("C05.P", "the body travels through two synchronous pipes", 5)
 	c.Rule("C05.C", "forced chunked framing (= C03.C)", 1)
 	c.Rule("C05.F", "reverse proxy flush interval", 1)
@@ -127,7 +128,7 @@ func runC05(c *Ctx) {
 	// ---- C05.B
 	entries := responsePathEntries(p)
 	path := staticClosure(p, entries)
-	if len(entries) < 12 {
+	if len(entries) < 14 {
 		c.Bad("C05.B", "entry-points", p, 0, fmt.Sprintf("only %d response-path entry points resolved (≥12 expected: writers, forwarder goroutines, upload readers, splice, proxy endpoints)", len(entries)))
 	}
 	// these two functions parse small, bounded control messages, not the streamed body
@@ -232,6 +233,12 @@ func runC05(c *Ctx) {
 			bad = "the underlying Read is inside a loop: the reader waits for further output before returning what it has"
 		}
 		c.Check("C05.W", rn+":single-read", p, fn.Pos(), bad == "", "one underlying Read per call, outside any loop", rn+": "+bad)
+	}
+	// the handler chain writes straight into the response forwarder (no wrapper in between)
+	if f := p.Func("agent.forwardRequest"); f != nil {
+		if sv := c.UniqueCall("C05.W", p, f, false, "(net/http.Handler).ServeHTTP"); sv != nil {
+			c.ArgIs("C05.W", "forwardRequest:chain-writes-into-forwarder", p, sv, 1, "the writer handed to the handler chain is the response forwarder itself", "result0:"+ModPath+"/agent/utils.NewResponseForwarder")
+		}
 	}
 	// the serialiser writes the response body it received without wrapping it in a buffering reader
 	if f := p.Func("agent/utils.NewResponseForwarder"); f != nil {
